@@ -214,6 +214,7 @@ func Boot(d *DBs, isTrie bool, mc *cfg.MempoolConfig) (*Env, error) {
 func (e *Env) Stop() {
 	if e.MP != nil {
 		e.MP.Stop()
+		ReleaseTxCache(e.MP)
 	}
 	if e.Bus != nil {
 		e.Bus.Stop()
